@@ -52,6 +52,21 @@ def periodStr (p : Dur.Period) : String := s!"{p.years} {p.months} {p.days} {p.h
 partial def digestDur (z z1 step : Int) (h : UInt64) (cnt : Nat) : UInt64 × Nat :=
   if z > z1 then (h, cnt) else digestDur (z + step) z1 step (mixI h (Dur.roundTrip z)) (cnt + 1)
 
+/-- `-`, `r:<ns>` or `a:<ns>` -/
+def parseT (w : String) : Option TP.T :=
+  if w == "-" then some .none else
+  match w.splitOn ":" with
+  | ["r", v] => v.toInt?.map TP.T.rel
+  | ["a", v] => v.toInt?.map TP.T.abs
+  | _ => none
+
+def showT : TP.T → String
+  | .none => "-"
+  | .rel d => s!"r:{d}"
+  | .abs t => s!"a:{t}"
+
+def showP (p : TP.Period) : String := s!"{showT p.start} {showT p.endT}"
+
 def ints (ws : List String) : Option (List Int) := ws.mapM String.toInt?
 def nats (ws : List String) : Option (List Nat) := ws.mapM String.toNat?
 
@@ -104,6 +119,19 @@ def answer (cfg : Cfg) (ws : List String) : Cfg × String :=
   | ["remaining", e, n] => match e.toInt?, n.toInt? with
     | some e, some n => (cfg, toString (TP.remaining e n))
     | _, _ => (cfg, "bad-op")
+  | ["pdec", ps, pe, ds, de, now] =>   -- previous value, document, clock: the value after UnmarshalJSON
+    match parseT ps, parseT pe, parseT ds, parseT de, now.toInt? with
+    | some ps, some pe, some ds, some de, some now => (cfg, showP (TP.decode ⟨ps, pe⟩ ⟨ds, de⟩ now))
+    | _, _, _, _, _ => (cfg, "bad-op")
+  | ["pdur", ps, pe, now] =>            -- GetDuration
+    match parseT ps, parseT pe, now.toInt? with
+    | some ps, some pe, some now =>
+      (cfg, match TP.getDuration ⟨ps, pe⟩ now with | some d => toString d | none => "invalid")
+    | _, _, _ => (cfg, "bad-op")
+  | ["penc", ps, pe, now] =>            -- MarshalJSON
+    match parseT ps, parseT pe, now.toInt? with
+    | some ps, some pe, some now => (cfg, showP (TP.encode ⟨ps, pe⟩ now))
+    | _, _, _ => (cfg, "bad-op")
   | ["reset"] => (cfg, "reset")
   | _ => (cfg, "bad-op")
 
